@@ -40,6 +40,8 @@ def build_http(entries):
             open(lock, "w").write(open(os.path.join(C.REPO, "Cargo.lock")).read())
             rc, out = C.sh(["cargo", "build", "--offline", "--quiet"], cwd=HTTP, timeout=3000, env=env)
         if rc != 0:
+            if C.rustc_refused(out):
+                raise C.HarnessBuildFailed("the HTTP harness crate (/verif/harness_http)", out)
             raise C.Broken("http harness does not build:\n" + out[-5000:])
         C.mark_fresh(marker, hsh)
     return os.path.join(TARGET_HTTP, "debug", "verif-http"), sel
